@@ -7,6 +7,7 @@
 -/
 import Yld.Model.Api
 import Yld.Proofs.Restore2
+import Yld.Proofs.FuelMono
 namespace Yld.C17
 
 /-- evaluate_bounded never lets a recursion-depth error escape. -/
@@ -42,5 +43,28 @@ theorem engine_state_is_querys (e : Engine) (m : Mode) (limit : Nat) (name : Str
 theorem variables_unbound_afterwards (e : Engine) (m : Mode) (limit : Nat) (name : String) (args : List Term) (r : Option Nat) :
     (e.evaluateBounded m limit name args r).1.w.b = e.w.b :=
   evaluate_bounded_restores e m limit name args r
+
+/-! ### The limit only cuts: it never changes what is found -/
+
+/-- The engine is monotone in the limit: with a larger limit (and a consumer that does at least
+    as much) a run either is the same run, or the run with the smaller limit was cut off. -/
+theorem engine_monotone_in_the_limit (cfg : Cfg) (f : Nat) (name : String) (args : List Term) :
+    GenBelow (query cfg f name args) (query cfg (f + 1) name args) :=
+  query_fuel_mono cfg f name args
+
+/-- A run that is not cut off is the same run at every larger limit: same answers, order,
+    bindings, store, ending. -/
+theorem uncut_run_is_limit_independent (cfg : Cfg) (f f' : Nat) (hle : f ≤ f') (name : String) (args : List Term)
+    (k : K) (w : World) (h : (query cfg f name args k w).2 ≠ some .oof) :
+    query cfg f' name args k w = query cfg f name args k w :=
+  query_fuel_stable_le cfg f f' hle name args k w h
+
+/-- At the API, with the recording consumer of `evaluate_bounded` / `YP.query` (all answers, stop
+    after k, raise at k): a finite search that completes within the limit returns, with any larger
+    limit, exactly what it returned. -/
+theorem complete_search_returns_every_answer (e : Engine) (mode : Mode) (f : Nat) (name : String) (args : List Term)
+    (sched : Sched) (h : (e.query mode f name args sched).2.ending ≠ some .oof) :
+    e.query mode (f + 1) name args sched = e.query mode f name args sched :=
+  engine_query_fuel_stable e mode f name args sched h
 
 end Yld.C17
